@@ -100,6 +100,67 @@ def _flags_from(entry):
         i += 1
     return out
 
+def merge_facts(tus):
+    """Merge per-translation-unit facts into one program (a JSON-level link).  The units are NOT linked with llvm-link because
+    its type mapping merges structurally identical structs (nsync_cv_s_ became nsync_mu_s_), which would destroy the field
+    identities the rules rely on.  Internal-linkage symbols whose names collide get a '.<unit index>' suffix."""
+    def walk(x, ren):
+        if isinstance(x, dict):
+            if x.get('k') in ('global', 'func') and x.get('n') in ren:
+                x['n'] = ren[x['n']]
+            c = x.get('callee')
+            if isinstance(c, str) and c in ren:
+                x['callee'] = ren[c]
+            for v in x.values():
+                if isinstance(v, (dict, list)):
+                    walk(v, ren)
+        elif isinstance(x, list):
+            for v in x:
+                if isinstance(v, (dict, list)):
+                    walk(v, ren)
+    out = {'source': 'merged', 'datalayout': tus[0]['datalayout'], 'structs': {}, 'ditypes': [], 'globals': {}, 'functions': {}}
+    seen_di = set()
+    taken_internal = set()
+    for k, tu in enumerate(tus):
+        ren = {}
+        for n, f in tu['functions'].items():
+            if f['internal'] and not f['decl']:
+                if n in taken_internal or (n in out['functions'] and not out['functions'][n]['decl']):
+                    ren[n] = '%s.%d' % (n, k)
+                taken_internal.add(n)
+        for n, g in tu['globals'].items():
+            if g['internal'] and not g['decl']:
+                if n in taken_internal or n in out['globals']:
+                    ren[n] = '%s.%d' % (n, k)
+                taken_internal.add(n)
+        if ren:
+            walk(tu['functions'], ren)
+            walk(tu['globals'], ren)
+        for n, f in tu['functions'].items():
+            n2 = ren.get(n, n)
+            f['tu'] = tu['source']
+            cur = out['functions'].get(n2)
+            if cur is None or (cur['decl'] and not f['decl']):
+                out['functions'][n2] = f
+        for n, g in tu['globals'].items():
+            n2 = ren.get(n, n)
+            cur = out['globals'].get(n2)
+            if cur is None or (cur['decl'] and not g['decl']):
+                out['globals'][n2] = g
+        for n, st in tu['structs'].items():
+            cur = out['structs'].get(n)
+            if cur is None:
+                out['structs'][n] = st
+            elif cur != st:
+                # same tag, different layout in another unit: keep both under a unit-qualified name
+                out['structs']['%s@%d' % (n, k)] = st
+        for t in tu['ditypes']:
+            key = json.dumps(t, sort_keys=True)
+            if key not in seen_di:
+                seen_di.add(key)
+                out['ditypes'].append(t)
+    return out
+
 def _build(repo, outdir):
     """returns meta dict; writes <outdir>/{C,CXX,C11,probe}.json"""
     ensure_irfacts()
@@ -153,18 +214,29 @@ def _build(repo, outdir):
         with ThreadPoolExecutor(max_workers=16) as ex:
             list(ex.map(_run, jobs))
         meta = {'repo': repo, 'units': {}}
-        def link_and_dump(cfg, passes):
-            bcs = [o for _, o in units[cfg]]
-            linked = os.path.join(scratch, cfg + '.bc')
-            _run([LLVM_LINK] + bcs + ['-o', linked])
+        def dump_unit(a):
+            cfg, k, bc, passes = a
             if passes:
-                opt = os.path.join(scratch, cfg + '.opt.bc')
-                _run([OPT, '-passes=' + passes, linked, '-o', opt])
-                linked = opt
-            _run([IRFACTS, linked, os.path.join(outdir, cfg + '.json')])
-            meta['units'][cfg] = [os.path.relpath(s, repo) if s.startswith(repo) else 'build:' + os.path.relpath(s, cmk) for s, _ in units[cfg]]
-        with ThreadPoolExecutor(max_workers=3) as ex:
-            list(ex.map(lambda a: link_and_dump(*a), [('C', 'sroa'), ('CXX', None), ('C11', None)]))
+                opt = bc[:-3] + '.opt.bc'
+                _run([OPT, '-passes=' + passes, bc, '-o', opt])
+                bc = opt
+            out = os.path.join(scratch, '%s_%d.json' % (cfg, k))
+            _run([IRFACTS, bc, out])
+            return out
+        work = []
+        for cfg, passes in (('C', 'sroa'), ('CXX', None), ('C11', None)):
+            for k, (_, o) in enumerate(units[cfg]):
+                work.append((cfg, k, o, passes))
+        with ThreadPoolExecutor(max_workers=16) as ex:
+            outs = list(ex.map(dump_unit, work))
+        bycfg = {}
+        for (cfg, k, _, _), o in zip(work, outs):
+            bycfg.setdefault(cfg, []).append(o)
+        for cfg in ('C', 'CXX', 'C11'):
+            merged = merge_facts([json.load(open(o)) for o in bycfg[cfg]])
+            with open(os.path.join(outdir, cfg + '.json'), 'w') as f:
+                json.dump(merged, f)
+            meta['units'][cfg] = [os.path.relpath(s2, repo) if s2.startswith(repo) else 'build:' + os.path.relpath(s2, cmk) for s2, _ in units[cfg]]
         _run([IRFACTS, os.path.join(scratch, 'probe.bc'), os.path.join(outdir, 'probe.json')])
         return meta
     finally:
